@@ -107,6 +107,8 @@ func (fx *FuncCtx) selectModel(st *State, in *ssa.Select) {
 		ch := cases[i].ch
 		if in.States[i].Dir == types.SendOnly {
 			closed := sx("select", fx.heapGet(s.heap, chClosed), ch)
+			fx.decls.declare("CH$open", "(Array Int Bool)")
+			s.assume(implies(sx("select", "CH$open", ch), not(closed)))
 			fx.oblige(s, "safe", "send", not(closed), in.Pos(), "send on closed channel")
 			s.assume(not(closed))
 			l := fx.chLenOf(s, ch)
@@ -220,6 +222,8 @@ func (fx *FuncCtx) sendModel(st *State, in *ssa.Send) {
 	fx.chanEnvStep(st)
 	ch := fx.val(st, in.Chan).s()
 	closed := sx("select", fx.heapGet(st.heap, chClosed), ch)
+	fx.decls.declare("CH$open", "(Array Int Bool)")
+	st.assume(implies(sx("select", "CH$open", ch), not(closed)))
 	fx.oblige(st, "safe", "send", not(closed), in.Pos(), "send on closed channel")
 	st.assume(not(closed))
 	l := fx.chLenOf(st, ch)
